@@ -101,6 +101,10 @@ StepWrite(m, e) ==
 
 StepWriteThrough(m, e) ==
     IF m.failed THEN AfterFailure(m, e, TRUE)
+    ELSE IF e.err = "ext" THEN
+      \* a send extension refused the frame: nothing accepted, nothing sent, the writer is as it was
+      [m EXCEPT !.bad = FirstBad(<<
+          <<e.n = 0 /\ e.out = <<>> /\ e.rest = 0, "a write-through refused by an extension must accept and send nothing">> >>)]
     ELSE IF m.acc - m.sent > 0 THEN
       [m EXCEPT !.bad = FirstBad(<<
           <<e.err = "not_empty" /\ e.n = 0 /\ e.out = <<>> /\ e.rest = 0,
